@@ -611,4 +611,35 @@ theorem c11_account_sound_state (H : Bytes → Bytes) (h32 : ∀ x, (H x).length
   rw [hh] at hha
   exact ⟨aT, sa, hlT, hsa, (Option.some.inj hha).symm⟩
 
+/-! Non-vacuity of the hypotheses of `c11_account_sound_state` about `T` (and `p`): a state-shaped tree (the tree of the
+one-account example above, all cells ordinary) has the `Shape` of a valid bag, spec values, no pruned branch below
+ordinary cells, the toy hash (32-byte output) is injective on its 6 representations, and its own dictionary holds the
+address: the lookup finds the `account_none` cell. -/
+def xAcc : Cell := .mk (-1) [false] []
+def xLeaf : Cell := .mk (-1) (exLabel ++ (exExtra ++ List.replicate 320 false)) [xAcc]
+def xAccs : Cell := .mk (-1) (true :: exExtra) [xLeaf]
+def xOmq : Cell := .mk (-1) [true] []
+def xGrp : Cell := .mk (-1) (List.replicate 140 false) []
+def xState : Cell := .mk (-1) (shardStateTag ++ List.replicate 330 false) [xOmq, xAccs, xGrp]
+
+example : (∀ x, (toyH x).length = 32) ∧ Shape xState ∧ (∃ s, specInfo toyH xState = some s) ∧ OrdUnpruned xState ∧
+    (reprs toyH xState).length = 6 ∧
+    (∀ x y, x ∈ reprs toyH xState → y ∈ reprs toyH xState → toyH x = toyH y → x = y) ∧
+    (lookupShardAccount cellView xState (bytesToBits exAddr)).map cellView.bits = some [false] := by
+  refine ⟨by intro x; simp [toyH], ?_, ?_, ?_, by decide +kernel, ?_, by decide +kernel⟩
+  · exact shape_ord _ _ (by decide) (shapes_cons _ _ (shape_ord _ _ (by decide) shapes_nil)
+      (shapes_cons _ _ (shape_ord _ _ (by decide) (shapes_cons _ _ (shape_ord _ _ (by decide)
+        (shapes_cons _ _ (shape_ord _ _ (by decide) shapes_nil) shapes_nil)) shapes_nil))
+      (shapes_cons _ _ (shape_ord _ _ (by decide) shapes_nil) shapes_nil)))
+  · exact specInfo_ord_some _ _ _ (specInfos_cons_some _ _ _ (specInfo_ord_some _ _ _ (specInfos_nil_some _))
+      (specInfos_cons_some _ _ _ (specInfo_ord_some _ _ _ (specInfos_cons_some _ _ _ (specInfo_ord_some _ _ _
+        (specInfos_cons_some _ _ _ (specInfo_ord_some _ _ _ (specInfos_nil_some _)) (specInfos_nil_some _))) (specInfos_nil_some _)))
+      (specInfos_cons_some _ _ _ (specInfo_ord_some _ _ _ (specInfos_nil_some _)) (specInfos_nil_some _))))
+  · exact ordUnpruned_ord _ _ (ordUnprunedL_cons _ _ (ordUnpruned_ord _ _ ordUnprunedL_nil)
+      (ordUnprunedL_cons _ _ (ordUnpruned_ord _ _ (ordUnprunedL_cons _ _ (ordUnpruned_ord _ _
+        (ordUnprunedL_cons _ _ (ordUnpruned_ord _ _ ordUnprunedL_nil) ordUnprunedL_nil)) ordUnprunedL_nil))
+      (ordUnprunedL_cons _ _ (ordUnpruned_ord _ _ ordUnprunedL_nil) ordUnprunedL_nil)))
+  · have key : ∀ x ∈ reprs toyH xState, ∀ y ∈ reprs toyH xState, toyH x = toyH y → x = y := by decide +kernel
+    exact fun x y hx hy => key x hx y hy
+
 end TonVerif.Properties.C11
